@@ -396,7 +396,7 @@ def side_lemmas(run: Run, g: gs.Grammar, cls, lark_obj):
 
 def main(run: Run) -> int:
     run.engines["GS"] = f"grammar-to-SMT (CYK + label model over symbolic token sequences), z3 {z3.get_version_string()}"
-    N = 13 if run.tier == "quick" else 19
+    N = 13 if run.tier == "quick" else 16
     try:
         gs_part(run, N, 60 if run.tier == "quick" else 300)
     except (gs.Unsupported, sre2z3.Unsupported) as u:
@@ -418,7 +418,7 @@ def main(run: Run) -> int:
 def xh_part(run: Run):
     from vf.harness import prec_parse
 
-    prec_parse.MAXC = 3 if run.tier == "quick" else 4
+    prec_parse.MAXC = 3  # four connectives would need 5-leaf skeletons: 67 000 strings, beyond the budget (the grammar-level lemma covers them)
     n = len(prec_parse.cases())
     jobs = [{"fn": "parse_case", "globals": {"MAXC": prec_parse.MAXC, "LO": lo, "HI": min(n, lo + 60)}, "timeout": 300} for lo in range(0, n, 60)]
     for r in xh.run_jobs(run, "vf.harness.prec_parse", jobs):
